@@ -14,7 +14,7 @@
    This file contains the executable model and the specification only; proofs are in
    Cli/FileSelProofs.v. *)
 From Coq Require Import NArith List Bool.
-From PV Require Import Gen.FileSelConst Cli.Glob.
+From PV Require Import Gen.FileSelConst Cli.Glob Cli.GlobX.
 Import ListNotations.
 Open Scope N_scope.
 
@@ -105,10 +105,12 @@ Definition should_skip_directory (n : name) : bool :=
   existsb (fun d => seg_match (map parse_cpat (lower d)) (lower n)) filesel_skip_dirs.
 
 (* file_reader.go matchesPattern: the path inside the analysed directory, or — for a
-   pattern without a slash — the file name *)
+   pattern without a slash — the file name.  doublestar.Match = Cli/GlobX.v [xglob]: the whole
+   pattern language ([..], [!..], {..,..}, \c); on patterns without these it is Cli/Glob.v's
+   [glob] (GlobXProofs.xglob_conservative). *)
 Definition has_slash (p : str) : bool := existsb (N.eqb c_slash) p.
 Definition matches_pattern (p : str) (rel : list name) : bool :=
-  glob p rel || (negb (has_slash p) && glob p [last rel []]).
+  xglob p rel || (negb (has_slash p) && xglob p [last rel []]).
 
 (* file_reader.go shouldIncludeFile *)
 Definition should_include_file (rel : list name) (inc exc : list str) : bool :=
@@ -210,7 +212,7 @@ Inductive under (recursive : bool) : list node -> list name -> Prop :=
 (* a pattern selects a file by its path inside the target directory; a pattern without a
    slash selects by file name at any depth *)
 Definition pat_selects (p : str) (rel : list name) : Prop :=
-  glob p rel = true \/ (has_slash p = false /\ exists d b, rel = d ++ [b] /\ glob p [b] = true).
+  xglob p rel = true \/ (has_slash p = false /\ exists d b, rel = d ++ [b] /\ xglob p [b] = true).
 
 (* matches an include pattern (any file when there is none) and no exclude pattern *)
 Definition selected (inc exc : list str) (rel : list name) : Prop :=
